@@ -5,6 +5,7 @@ import (
 	"fmt"
 	"io"
 	"net"
+	"sync"
 	"time"
 
 	"github.com/nsqio/go-nsq"
@@ -23,6 +24,7 @@ type lookupPeer struct {
 	state           int32
 	connectCallback func(*lookupPeer)
 	maxBodySize     int64
+	infoMtx         sync.RWMutex
 	Info            peerInfo
 }
 
@@ -32,6 +34,20 @@ type peerInfo struct {
 	HTTPPort         int    `json:"http_port"`
 	Version          string `json:"version"`
 	BroadcastAddress string `json:"broadcast_address"`
+}
+
+// getInfo returns the metadata the peer reported when it last identified itself
+// (written by the lookupLoop goroutine, read by whoever creates a topic)
+func (lp *lookupPeer) getInfo() peerInfo {
+	lp.infoMtx.RLock()
+	defer lp.infoMtx.RUnlock()
+	return lp.Info
+}
+
+func (lp *lookupPeer) setInfo(info peerInfo) {
+	lp.infoMtx.Lock()
+	lp.Info = info
+	lp.infoMtx.Unlock()
 }
 
 // newLookupPeer creates a new lookupPeer instance connecting to the supplied address.
